@@ -128,9 +128,9 @@ Section RangeProgram.
     pose proof (next_line_frame _ _ _ _ HN) as (_ & _ & Hout & _).
     destruct res as [r| | | |]; try discriminate.
     - cbn [exec_rules] in H.
-      destruct (eval_pat_range U step enter e fuel (mkRule PRange false) 0 f u (set_line r s1) p1 p2 eq_refl Hp1 Hp2) as [u1 HE].
+      destruct (eval_pat_range U step enter e fuel (mkRule PRange false) 0 f u (set_line e r s1) p1 p2 eq_refl Hp1 Hp2) as [u1 HE].
       rewrite HE in H. cbn [has_body negb] in H.
-      assert (Hl : line (set_line r s1) = r) by reflexivity. rewrite Hl in H.
+      assert (Hl : line (set_line e r s1) = r) by reflexivity. rewrite Hl in H.
       destruct (range_step (p1 r) (p2 r) f) as [m f'] eqn:HR. cbn [fst snd] in H.
       destruct m; cbn [negb rev app] in H.
       + apply IH in H as (recs & HD2 & HO). exists (r :: recs). split.
